@@ -8,7 +8,7 @@ def run(ctx):
                               "c07_outage_login_pure", "c07_rows_confirmed", "c07_backend",
                               "c07_cache_only_while_primary_silent", "c07_cache_silent_while_primary_answers", "c07_primary_row_decides", "c07_evicted_in_primary_refused",
                               "c07_sticky_fallback_refuted", "c07_sticky_fallback_refresh_refuted",
-                              "c07_old_expired_record_refuted", "c07_old_evict_cache_refuted",
+                              "c07_old_text_test_refuted", "c07_other_code_no_verdict", "c07_old_expired_record_refuted", "c07_old_evict_cache_refuted",
                               "c07_evict_primary_outage_refuted"])],
         harness=("TestVerif_C07", ["kmd/common.go", "kmd/creds.go", "kmd/faultdb.go", "kmd/vdevice.go", "kmd/storeenv.go", "kmd/c15.go", "kmd/c07.go"]),
         cases=("CasesC07.v", [("c07_mismatches", "login histories against the in-process LDAPS directory and the SQLite stores = model run (verdict of every login, both stores after every op)"),
